@@ -251,16 +251,17 @@ example : natDec 120 = [49, 50, 48] := by decide
 /-! ## T5.6 lexeme separation (in classes)
 
 `Lex` (Lemmas/TokLex.lean) = grammar tokens with plain, escape-free lexemes of the classes proved so far:
-NUMBER (ASCII digits), IDENT (first code point a letter other than u/U or `_`, then letters, digits, `-`, `_`),
-the five match operators and CDO (fixed lexemes), the single-character tokens `,:;{}>[]`; `render` joins the lexemes
-with single spaces; `expected` is the list of (type, value) pairs with an S token between neighbours.
-Not yet covered by a theorem (classification oracle only): signed / fractional numbers, PERCENTAGE, DIMENSION, HASH,
-ATKEYWORD and the reserved at-rules, FUNCTION, STRING, URI, UNICODE-RANGE, COMMENT, CDC, identifiers that start
-with `-`, `u`, `U`, a non-ASCII code point or an escape. -/
+NUMBER (ASCII digits), PERCENTAGE (digits `%`), DIMENSION (digits + plain identifier), HASH (`#` + letters, digits,
+`-`, `_`), IDENT (first code point a letter other than u/U or `_`, then letters, digits, `-`, `_`), the five match
+operators and CDO (fixed lexemes), the single-character tokens `,:;{}>[]`; `render` joins the lexemes with single
+spaces; `expected` is the list of (type, value) pairs with an S token between neighbours.
+Not yet covered by a theorem (classification oracle only): signed / fractional numbers, ATKEYWORD and the reserved
+at-rules, FUNCTION, STRING, URI, UNICODE-RANGE, COMMENT, CDC, identifiers that start with `-`, `u`, `U`, a
+non-ASCII code point or an escape. -/
 
-/-- **T5.6 (classes NUMBER, IDENT, match operators, CDO, single-character tokens)**: a text produced from such
-tokens separated by single spaces is recovered with exactly those token types and values, an S token between
-neighbours (partial-sheet mode, comments on or off). -/
+/-- **T5.6 (classes NUMBER, PERCENTAGE, DIMENSION, HASH, IDENT, match operators, CDO, single-character tokens)**:
+a text produced from such tokens separated by single spaces is recovered with exactly those token types and values,
+an S token between neighbours (partial-sheet mode, comments on or off). -/
 theorem lexeme_separation (doC : Bool) (ts : List Lex) (h : ∀ t ∈ ts, t.WF) :
     (tokenize (render ts) false doC).tokens.map proj = expected ts :=
   tokenize_lexemes doC ts h
@@ -275,16 +276,32 @@ theorem ident_class (doC : Bool) (c : Nat) (cs stop : Cps) (hc : inR identStart 
     scan false doC (c :: cs ++ stop) productions = .hit "IDENT" (c :: cs).length :=
   scan_ident doC c cs stop hc hcs hs
 
+theorem percentage_class (doC : Bool) (d : Nat) (ds rest : Cps) (hd : ∀ c ∈ d :: ds, isDigit c = true) :
+    scan false doC (d :: ds ++ 37 :: rest) productions = .hit "PERCENTAGE" ((d :: ds).length + 1) :=
+  scan_percentage doC d ds rest hd
+
+theorem dimension_class (doC : Bool) (d : Nat) (ds : Cps) (c : Nat) (cs stop : Cps)
+    (hd : ∀ x ∈ d :: ds, isDigit x = true) (hc : inR identStart c = true)
+    (hcs : ∀ x ∈ cs, inR identRest x = true) (hst : Sep stop) :
+    scan false doC (d :: ds ++ (c :: cs ++ stop)) productions =
+      .hit "DIMENSION" ((d :: ds).length + (c :: cs).length) :=
+  scan_dimension doC d ds c cs stop hd hc hcs hst
+
+theorem hash_class (doC : Bool) (n : Nat) (ns stop : Cps) (hn : inR identRest n = true)
+    (hns : ∀ x ∈ ns, inR identRest x = true) (hs : Sep stop) :
+    scan false doC (35 :: n :: ns ++ stop) productions = .hit "HASH" (35 :: n :: ns).length :=
+  scan_hash doC n ns stop hn hns hs
+
 theorem fixed_class (doC : Bool) (name : String) (w : Cps) (k : Nat) (h : (name, w, k) ∈ fixedLexemes) (rest : Cps) :
     scan false doC (w ++ rest) productions = .hit name w.length :=
   scan_fixed doC name w k h rest
 
 /-- the hypotheses are satisfiable, and the statement means what it says: `ab { c : 12 }` with `~=` thrown in -/
 example : ∀ t ∈ [Lex.ident 97 [98], .fast 123, .ident 99 [], .fast 58, .num 49 [50], .fixed "INCLUDES" [126, 61] 13,
-    .fast 125], t.WF := by
+    .pct 53 [48], .dim 49 [] 112 [120], .hash 102 [48, 48], .fast 125], t.WF := by
   intro t ht
   simp only [List.mem_cons, List.mem_nil_iff, or_false] at ht
-  rcases ht with rfl | rfl | rfl | rfl | rfl | rfl | rfl <;> simp only [Lex.WF] <;> decide
+  rcases ht with rfl | rfl | rfl | rfl | rfl | rfl | rfl | rfl | rfl | rfl <;> simp only [Lex.WF] <;> decide
 
 example : render [Lex.ident 97 [98], .fast 123, .num 49 [50], .fast 125] =
     [97, 98, 32, 123, 32, 49, 50, 32, 125] := by decide
@@ -292,5 +309,10 @@ example : render [Lex.ident 97 [98], .fast 123, .num 49 [50], .fast 125] =
 example : (tokenize [97, 98, 32, 123, 32, 49, 50, 32, 125] false true).tokens.map proj =
     [("IDENT", [97, 98]), ("S", [32]), ("CHAR", [123]), ("S", [32]), ("NUMBER", [49, 50]), ("S", [32]),
      ("CHAR", [125])] := by decide +kernel
+
+/-- `50% 1px #f00` -/
+example : expected [Lex.pct 53 [48], .dim 49 [] 112 [120], .hash 102 [48, 48]] =
+    [("PERCENTAGE", [53, 48, 37]), ("S", [32]), ("DIMENSION", [49, 112, 120]), ("S", [32]),
+     ("HASH", [35, 102, 48, 48])] := by decide
 
 end CssVerif.C05
